@@ -144,6 +144,44 @@ def file_level(ctx, cases, counts):
     return out
 
 
+def poly_table_file_level(ctx, counts):
+    """Polynomial (1..13 coefficients: two-digit property indexes included) and Table scales written as NI_Scale properties and read
+    back from the file: equal to Horner evaluation / clamped interpolation in exact rationals."""
+    import io
+    from nptdms import TdmsFile, TdmsWriter, ChannelObject
+    rnd = ctx.rnd
+    out = []
+    counts["poly_files"] = 0
+    for _ in range(ctx.n(30, 600)):
+        k = rnd.choice([1, 2, 4, 9, 10, 11, 12, 13])
+        cs = [dy(rnd, -2, 2, 4) / 2.0 ** (6 * max(0, q - 2)) for q in range(k)]
+        xs = [dy(rnd, -8, 8, 3) for _ in range(4)]
+        P = {"NI_Number_Of_Scales": np.uint32(1), "NI_Scale[0]_Scale_Type": "Polynomial", "NI_Scale[0]_Polynomial_Coefficients_Size": np.uint32(k),
+             "NI_Scale[0]_Polynomial_Input_Source": np.uint32(0xFFFFFFFF), "NI_Scaling_Status": "unscaled"}
+        items = [("NI_Scale[0]_Polynomial_Coefficients[%d]" % q, float(c)) for q, c in enumerate(cs)]
+        rnd.shuffle(items)
+        P.update(items)
+        buf = io.BytesIO()
+        rp = dict(kind="poly-file", coeffs=cs, xs=xs)
+        try:
+            with TdmsWriter(buf) as w:
+                w.write_segment([ChannelObject("g", "c", np.array(xs, dtype=np.float64), P)])
+            got = [float(v) for v in TdmsFile.read(io.BytesIO(buf.getvalue()))["g"]["c"][:]]
+        except Exception as ex:  # noqa
+            out.append(Violation("polynomial scale with %d coefficients through a file raised %s: %s" % (k, type(ex).__name__, ex), rp))
+            continue
+        counts["poly_files"] += 1
+        for x, g in zip(xs, got):
+            exact = sum(Fraction(c) * Fraction(x) ** i for i, c in enumerate(cs))
+            mag = sum(abs(Fraction(c)) * abs(Fraction(x)) ** i for i, c in enumerate(cs))
+            if abs(Fraction(g) - exact) > Fraction(1, 10 ** 12) * max(1, mag):
+                out.append(Violation("polynomial scale with %d coefficients read through a file: p(%r) = %r, Horner evaluation of the declared coefficients gives %r" % (k, x, g, float(exact)), rp))
+                break
+        if len(out) >= 3:
+            break
+    return out
+
+
 def run(ctx):
     ctx.nptdms()
     from nptdms import scaling as sc
@@ -340,6 +378,7 @@ def run(ctx):
         with warnings.catch_warnings():
             warnings.simplefilter("ignore")
             violations += file_level(ctx, file_cases, counts)
+            violations += poly_table_file_level(ctx, counts)
     finally:
         if ev is not None:
             ev.close()
